@@ -12,6 +12,7 @@ package c16
 // atomic.
 
 import (
+	"fmt"
 	"sort"
 	"strings"
 )
@@ -142,7 +143,17 @@ type ev struct {
 
 func (e ev) String() string {
 	n := map[byte]string{evBg: "bg", evBo: "bo", evTx: "tx", evOl: "ol"}[e.k]
-	return n + string(rune('A'+e.box-1))
+	return n + boxName(e.box)
+}
+
+// glyphs: the text of box i (1-based) is glyphs[i-1]; boxes are named A…Z, then #27, #28…
+const glyphs = "abcdefghijklmnopqrstuvwxyzABCDEFGHIJ"
+
+func boxName(id int) string {
+	if id >= 1 && id <= 26 {
+		return string(rune('A' + id - 1))
+	}
+	return fmt.Sprintf("#%d", id)
 }
 
 func evString(l []ev) string {
@@ -163,6 +174,7 @@ type mbox struct {
 	parent   *mbox
 	children []*mbox
 	kind     kind
+	zover    *int // many-siblings family: the z-index value (any integer) declared on the box
 
 	// computed style (CSS 2.1 §9.7 applied)
 	positioned bool
@@ -209,10 +221,16 @@ type model struct {
 }
 
 // newModel builds the element tree. parents[i] is the index of the parent box of box i (-1 = body).
-func newModel(parents []int, kinds []kind) *model {
+func newModel(parents []int, kinds []kind) *model { return newModelZ(parents, kinds, nil) }
+
+// newModelZ: zs[i] != nil declares z-index:*zs[i] on box i (used instead of a z deviation).
+func newModelZ(parents []int, kinds []kind, zs []*int) *model {
 	m := &model{root: &mbox{id: 0, display: "block", realSC: true, scLike: true}}
 	for i := range parents {
 		b := &mbox{id: i + 1, kind: kinds[i]}
+		if zs != nil {
+			b.zover = zs[i]
+		}
 		m.boxes = append(m.boxes, b)
 		p := m.root
 		if parents[i] >= 0 {
@@ -250,6 +268,9 @@ func (b *mbox) compute() {
 				b.zint, b.z = true, zi
 			}
 		}
+	}
+	if b.zover != nil && b.positioned {
+		b.zint, b.z = true, *b.zover
 	}
 	b.opacity = k.has(dOpacity)
 	b.transform = k.has(dTransform) && b.display != "inline" // transformable elements only
